@@ -47,10 +47,31 @@ func MarkupObs(lp *markup.LineParser, line string) (out string) {
 			out = "PANIC"
 		}
 	}()
+	out, _ = markupParseObs(lp, line)
+	return out
+}
+
+// markupParseObs parses one line and returns the observation together with the result object (nil on errors)
+func markupParseObs(lp *markup.LineParser, line string) (out string, kept *markup.ParseResult) {
+	defer func() {
+		if r := recover(); r != nil {
+			out, kept = "PANIC", nil
+		}
+	}()
 	res, err := lp.ParseMarkup(line)
 	if err != nil {
-		return "ERR"
+		return "ERR", nil
 	}
+	return markupResultObs(res), res
+}
+
+// markupResultObs prints what a caller can see of a result it holds
+func markupResultObs(res *markup.ParseResult) (out string) {
+	defer func() {
+		if r := recover(); r != nil {
+			out = "PANIC"
+		}
+	}()
 	tfa := make([]string, 0, len(res.Attributes))
 	for _, a := range res.Attributes {
 		tfa = append(tfa, markupTFA(res, a))
@@ -94,8 +115,16 @@ func Markup(c *sexp.S, out *Out) {
 			return
 		}
 		lp := &markup.LineParser{}
+		// results the caller keeps: a result handed out earlier must not change when the parser is used again
+		type held struct {
+			res   *markup.ParseResult
+			first string
+		}
+		var keep []held
 		for _, h := range c.List[4].Args() {
-			_ = MarkupObs(lp, markupLine(h))
+			if o, res := markupParseObs(lp, markupLine(h)); res != nil {
+				keep = append(keep, held{res, o})
+			}
 		}
 		line := markupLine(c.List[5])
 		reused := MarkupObs(lp, line)
@@ -105,6 +134,11 @@ func Markup(c *sexp.S, out *Out) {
 			out.Put("FRESH same")
 		} else {
 			out.Put("FRESH diff %s", fresh)
+		}
+		for i, k := range keep {
+			if again := markupResultObs(k.res); again != k.first {
+				out.Put("STALE result %d changed after later parses: %s (was %s)", i, again, k.first)
+			}
 		}
 	case "utf8":
 		// the runes Go sees in a byte string
